@@ -75,6 +75,11 @@ type State struct {
 	held      map[string]bool
 	actions   int
 	iter      map[ssa.Value]Term // map iterators: visited set
+	iterCount map[ssa.Value]Term
+	iterSnap  map[ssa.Value]string
+	iterMod   map[ssa.Value]Term
+	iterRef   map[ssa.Value]Term
+	mapTypes  map[string]mapInfo
 	path      []string
 	dead      bool
 }
@@ -120,6 +125,30 @@ func (s *State) Clone() *State {
 	for k, v := range s.iter {
 		n.iter[k] = v
 	}
+	if s.iterCount != nil {
+		n.iterCount = map[ssa.Value]Term{}
+		n.iterSnap = map[ssa.Value]string{}
+		for k, v := range s.iterCount {
+			n.iterCount[k] = v
+		}
+		for k, v := range s.iterSnap {
+			n.iterSnap[k] = v
+		}
+		n.iterMod = map[ssa.Value]Term{}
+		n.iterRef = map[ssa.Value]Term{}
+		for k, v := range s.iterMod {
+			n.iterMod[k] = v
+		}
+		for k, v := range s.iterRef {
+			n.iterRef[k] = v
+		}
+	}
+	if s.mapTypes != nil {
+		n.mapTypes = map[string]mapInfo{}
+		for k, v := range s.mapTypes {
+			n.mapTypes[k] = v
+		}
+	}
 	return n
 }
 
@@ -155,6 +184,7 @@ type Frame struct {
 	onReturn func(st *State, fr *Frame, results []Val)
 	contract *Contract
 	allocCell map[*ssa.Alloc]bool
+	iterOf   ssa.Value
 }
 
 type deferred struct {
